@@ -55,6 +55,7 @@ def op_line(op):
 
 def case_text(cid, tmpl, values, f0, named_max):
     lines = ['case %s %s %s %d %d%s' % (cid, tmpl.lang, tmpl.analysis, f0, named_max, ' light' if getattr(tmpl, 'light', False) else ''), 'names ' + ' '.join(str(v) for v in values)]
+    if getattr(tmpl, 'late', None): lines.append('late ' + ' '.join('%d:%d' % (i, k) for i, k in sorted(tmpl.late.items())))
     for op in tmpl.ops: lines.append(op_line(op))
     return '\n'.join(lines) + '\n'
 
